@@ -34,10 +34,21 @@ pub fn readable(addr: u64, n: usize) -> bool {
         if libc::pipe(fds.as_mut_ptr()) != 0 {
             return false;
         }
-        let r = libc::write(fds[1], addr as *const libc::c_void, n.min(4096));
+        // probe page by page (a pipe takes 64 KiB at most; we never read it)
+        let mut ok = true;
+        let mut off = 0usize;
+        while off < n && ok {
+            let chunk = (n - off).min(4096);
+            let r = libc::write(fds[1], (addr as usize + off) as *const libc::c_void, chunk);
+            ok = r == chunk as isize;
+            off += chunk;
+            if off >= 60 * 1024 {
+                break;
+            }
+        }
         libc::close(fds[0]);
         libc::close(fds[1]);
-        r == n.min(4096) as isize
+        ok
     }
 }
 
